@@ -60,6 +60,9 @@ KV_VARIANTS = [
     [("key1", "val1", False, False), ("Key2", "two words", False, True)],
     [("dup", "first", True, True), ("other", "x", True, True), ("DUP", "second", True, True)],
     [("ows_enable_request", "*", True, True), ("empty", "", True, True)],
+    # keys on which str.lower() and str.casefold() differ, quoted and bare (the grammar admits \xc0-\xff in bare words)
+    [("Straße_Name", "x", True, True), ("GRÖSSE", "y", True, True), ("maße", "1", True, True), ("masse", "2", True, True)],
+    [("größe", "10", False, False), ("ÀÉÎ_key", "v", False, True), ("µm", "micro", True, True)],
 ]
 CONFIG_VARIANTS = [
     [("MS_ERRORFILE", "stderr")],
